@@ -88,9 +88,10 @@ structure Item where
   cost : Nat
 deriving Repr, DecidableEq
 
-/-- `suggestions.dedup_by(same name and same diff)`: consecutive duplicates are dropped, the
-first one (and its criteria) survives -/
-def sameSuggestion (x y : Item) : Bool := x.name = y.name && x.from_ = y.from_ && x.to = y.to
+/-- `suggestions.dedup_by(same name, same diff and — since fix C17/dedup-drops-criteria — the
+same criteria)`: consecutive duplicates are dropped, the first one survives -/
+def sameSuggestion (x y : Item) : Bool :=
+  x.name = y.name && x.from_ = y.from_ && x.to = y.to && x.criteria = y.criteria
 
 def dedupFrom (prev : Item) : List Item → List Item
   | [] => [prev]
